@@ -108,3 +108,11 @@ type Times struct {
 	PT     *time.Time
 	N      int
 }
+
+// EmbTag embeds structs whose json tags give them a name, an option only, or nothing.
+type EmbTag struct {
+	Inner `json:"inner"`
+	Extra `json:",omitempty"`
+	Uniq
+	Z int `json:"z"`
+}
